@@ -4,7 +4,7 @@
   Model: CdiModel/Watch.lean.  The theorem is an inductive invariant over every
   interleaving of file-system operations with watcher, scan and query steps.
 -/
-import CdiModel.Watch
+import CdiModel.WatchMulti
 namespace Cdi.Watch
 open Cdi
 
@@ -70,7 +70,7 @@ theorem inv_step (s s' : St) (st : Step) (h : inv repaired s = true) (hs : step 
   obtain ⟨⟨h1, h2⟩, h3⟩ := h
   cases st with
   | fs o =>
-    cases o <;> cases de <;> cases kw <;>
+    rcases o with _ | _ | _ | _ | _ | ⟨_ | _⟩ <;> cases de <;> cases kw <;>
       simp [step, fsStep, emit] at hs <;> subst hs <;>
       simp only [inv, hasPass_snoc, rmdirs_snoc, passes, repaired, Bool.and_eq_true, beq_iff_eq] <;>
       cases tr <;> simp at h1 h2 ⊢ <;>
@@ -101,6 +101,15 @@ theorem inv_step (s s' : St) (st : Step) (h : inv repaired s = true) (hs : step 
         simp only [inv, Bool.and_eq_true, beq_iff_eq]
         cases de <;> cases kw <;> cases tr <;> simp at h1 h2 ⊢ <;> (try omega) <;> (try exact h2)
     | query =>
+      cases pe
+      · cases de <;> cases tr <;> cases se <;>
+          simp [step, cacheStep, update, repaired] at hs <;> subst hs <;>
+          simp only [inv, repaired, Bool.and_eq_true, beq_iff_eq] <;>
+          cases kw <;> simp at h1 h2 ⊢ <;> cases stl <;> simp at h3 ⊢ <;>
+          (try omega) <;> (try (simp [h2] at hrp; simp [hrp])) <;>
+          (try (cases hh : hasPass repaired q <;> simp_all [repaired]))
+      · simp [step, cacheStep] at hs
+    | foreignDue =>
       cases pe
       · cases de <;> cases tr <;> cases se <;>
           simp [step, cacheStep, update, repaired] at hs <;> subst hs <;>
@@ -163,3 +172,267 @@ example : (queryNow repaired (runSteps repaired (init true)
     [.fs .rmdir, .cache .watcherTake, .fs .mkdir, .fs .writeSpec, .cache .scan, .fs .rmdir])).stale = false := by decide
 
 end Cdi.Watch
+
+/-! ## Any number of configured directories
+
+`CdiModel/WatchMulti.lean` is the shared machine: `n` directories, one event queue, one mutex,
+one scan.  Seen from one directory it is the single-directory machine above with two extra
+steps (`FsOp.foreign`: an event of another directory enters the queue; `CacheOp.foreignDue`: a
+query found another directory to re-add), so the invariant lifts along the projection. -/
+namespace Cdi.WatchMulti
+open Cdi Cdi.Watch
+
+theorem setDir_same (f : Nat → DSt) (d : Nat) (x : DSt) : setDir f d x d = x := by simp [setDir]
+theorem setDir_other (f : Nat → DSt) (d d' : Nat) (x : DSt) (h : d ≠ d') : setDir f d' x d = f d := by simp [setDir, h]
+
+theorem proj_memit_same (c : Cfg) (s : MSt) (d : Nat) (e : Ev) : proj c d (memit s d e) = emit (proj c d s) e := by
+  unfold memit emit proj
+  cases hk : (s.dir d).kwatch <;> simp [hk, pev]
+
+theorem proj_memit_other (c : Cfg) (s : MSt) (d d' : Nat) (e : Ev) (h : d ≠ d') :
+    proj c d (memit s d' e) = proj c d s ∨
+    proj c d (memit s d' e) = { proj c d s with queue := (proj c d s).queue ++ [if passes c e then .change else .other] } := by
+  unfold memit
+  cases hk : (s.dir d').kwatch
+  · left; simp
+  · right; simp [proj, pev, Ne.symm h]
+
+/-- events of other directories are, for this one, a passing or a non-passing foreign event -/
+theorem foreign_step (c : Cfg) (v : St) (e : Ev) :
+    step c v (.fs (.foreign (passes c e))) = some { v with queue := v.queue ++ [if passes c e then .change else .other] } := by
+  simp [step, fsStep]
+
+theorem sim_fs_same (c : Cfg) (s s' : MSt) (d : Nat) (o : FsOp) (h : mfs s d o = some s') :
+    step c (proj c d s) (.fs o) = some (proj c d s') := by
+  cases o with
+  | foreign p => simp [mfs] at h
+  | writeSpec =>
+    simp only [mfs] at h
+    split at h
+    · rename_i hde
+      cases h
+      simp only [step, fsStep, proj, hde, if_true]
+      cases hk : (s.dir d).kwatch <;> simp [memit, emit, hk, setDir_same, pev]
+    · cases h
+  | moveIn =>
+    simp only [mfs] at h
+    split at h
+    · rename_i hde
+      cases h
+      simp only [step, fsStep, proj, hde, if_true]
+      cases hk : (s.dir d).kwatch <;> simp [memit, emit, hk, setDir_same, pev]
+    · cases h
+  | tempFile =>
+    simp only [mfs] at h
+    split at h
+    · rename_i hde
+      cases h
+      simp only [step, fsStep, proj, hde, if_true]
+      cases hk : (s.dir d).kwatch <;> simp [memit, emit, hk, pev, hde]
+    · cases h
+  | rmdir =>
+    simp only [mfs] at h
+    split at h
+    · rename_i hde
+      cases h
+      simp only [step, fsStep, proj, hde, if_true]
+      cases hk : (s.dir d).kwatch <;> simp [memit, emit, hk, setDir_same, pev]
+    · cases h
+  | mkdir =>
+    simp only [mfs] at h
+    split at h
+    · cases h
+    · rename_i hde
+      cases h
+      simp only [Bool.not_eq_true] at hde
+      simp [step, fsStep, proj, hde, setDir_same]
+
+theorem sim_fs_other (c : Cfg) (s s' : MSt) (d d' : Nat) (o : FsOp) (h : mfs s d' o = some s') (hne : d ≠ d') :
+    proj c d s' = proj c d s ∨ ∃ p, step c (proj c d s) (.fs (.foreign p)) = some (proj c d s') := by
+  have hne' : d' ≠ d := Ne.symm hne
+  cases o with
+  | foreign p => simp [mfs] at h
+  | writeSpec =>
+    simp only [mfs] at h
+    split at h
+    · cases h
+      cases hk : (s.dir d').kwatch
+      · left; simp [memit, hk, proj, setDir, hne, setDir_same]
+      · right; exact ⟨passes c .change, by simp [memit, hk, proj, setDir, hne, hne', step, fsStep, pev, passes]⟩
+    · cases h
+  | moveIn =>
+    simp only [mfs] at h
+    split at h
+    · cases h
+      cases hk : (s.dir d').kwatch
+      · left; simp [memit, hk, proj, setDir, hne, setDir_same]
+      · right; exact ⟨passes c .createOnly, by simp [memit, hk, proj, setDir, hne, hne', step, fsStep, pev]⟩
+    · cases h
+  | tempFile =>
+    simp only [mfs] at h
+    split at h
+    · cases h
+      cases hk : (s.dir d').kwatch
+      · left; simp [memit, hk, proj]
+      · right; exact ⟨passes c .other, by simp [memit, hk, proj, hne', step, fsStep, pev, passes]⟩
+    · cases h
+  | rmdir =>
+    simp only [mfs] at h
+    split at h
+    · cases h
+      cases hk : (s.dir d').kwatch
+      · left; simp [memit, hk, proj, setDir, hne]
+      · right; exact ⟨passes c .rmdir, by simp [memit, hk, proj, setDir, hne, hne', step, fsStep, pev, passes]⟩
+    · cases h
+  | mkdir =>
+    simp only [mfs] at h
+    split at h
+    · cases h
+    · cases h; left; simp [proj, setDir, hne]
+
+theorem upd_proj (c : Cfg) (n : Nat) (s : MSt) (d : Nat) (hd : d < n) :
+    (update c (proj c d s)).1 = proj c d { s with dir := (updateAll c n s.dir).1 } ∧
+    (update c (proj c d s)).2 = (dupdate c (s.dir d)).2 := by
+  cases ht : (s.dir d).tracked <;> cases he : (s.dir d).dirExists <;>
+    simp [update, dupdate, updateAll, proj, hd, ht, he]
+
+theorem due_of_mem (c : Cfg) (n : Nat) (f : Nat → DSt) (d : Nat) (hd : d < n) (h : (dupdate c (f d)).2 = true) :
+    (updateAll c n f).2 = true := by
+  simp only [updateAll, List.any_eq_true, List.mem_range]
+  exact ⟨d, hd, h⟩
+
+theorem sim_scan (c : Cfg) (n : Nat) (s s' : MSt) (h : mstep c n s .scan = some s') (d : Nat) :
+    step c (proj c d s) (.cache .scan) = some (proj c d s') := by
+  simp only [mstep] at h
+  split at h
+  · rename_i hp; cases h; simp [step, cacheStep, proj, hp]
+  · cases h
+
+theorem sim_query (c : Cfg) (n : Nat) (s s' : MSt) (h : mstep c n s .query = some s') (d : Nat) (hd : d < n) :
+    ∃ st, step c (proj c d s) st = some (proj c d s') := by
+  simp only [mstep] at h
+  split at h
+  · cases h
+  · rename_i hp
+    simp only [Bool.not_eq_true] at hp
+    cases h
+    obtain ⟨h1, h2⟩ := upd_proj c n s d hd
+    cases hdd : (dupdate c (s.dir d)).2
+    · cases hg : (updateAll c n s.dir).2
+      · refine ⟨.cache .query, ?_⟩
+        have hpp : (proj c d s).pend = false := hp
+        simp only [step, cacheStep, hpp, Bool.false_eq_true, if_false]
+        rw [show update c (proj c d s) = ((update c (proj c d s)).1, (update c (proj c d s)).2) from rfl, h1, h2, hdd]
+        simp [proj, hg, hp]
+      · refine ⟨.cache .foreignDue, ?_⟩
+        have hpp : (proj c d s).pend = false := hp
+        simp only [step, cacheStep, hpp, Bool.false_eq_true, if_false]
+        rw [h1]; simp [proj, hg]
+    · have hg := due_of_mem c n s.dir d hd hdd
+      refine ⟨.cache .query, ?_⟩
+      have hpp : (proj c d s).pend = false := hp
+      simp only [step, cacheStep, hpp, Bool.false_eq_true, if_false]
+      rw [show update c (proj c d s) = ((update c (proj c d s)).1, (update c (proj c d s)).2) from rfl, h1, h2, hdd]
+      simp [proj, hg]
+
+theorem sim_take (c : Cfg) (n : Nat) (s s' : MSt) (h : mstep c n s .watcherTake = some s') (d : Nat) (hd : d < n) :
+    step c (proj c d s) (.cache .watcherTake) = some (proj c d s') := by
+  obtain ⟨cm, sf⟩ := c
+  cases hp : s.pend
+  · cases hq : s.queue with
+    | nil => simp [mstep, hp, hq] at h
+    | cons p rest =>
+      obtain ⟨d', e⟩ := p
+      by_cases hdd : d' = d
+      · subst hdd
+        cases e <;> cases cm <;> cases ht : (s.dir d').tracked <;> cases he : (s.dir d').dirExists <;>
+          simp [mstep, hp, hq, passes, updateAll, dupdate, hd, ht, he, setDir] at h <;> subst h <;>
+          simp [step, cacheStep, proj, hp, hq, pev, passes, update, ht, he, hd, setDir, updateAll, dupdate]
+      · have hdd' : d ≠ d' := fun e => hdd e.symm
+        cases e <;> cases cm <;> cases ht : (s.dir d).tracked <;> cases he : (s.dir d).dirExists <;>
+          cases ht' : (s.dir d').tracked <;>
+          simp [mstep, hp, hq, passes, updateAll, dupdate, hd, ht, he, ht', setDir] at h <;> subst h <;>
+          simp [step, cacheStep, proj, hp, hq, pev, passes, update, ht, he, ht', hd, hdd, hdd', setDir, updateAll, dupdate]
+  · simp [mstep, hp] at h
+
+/-- every step of the shared machine is, seen from any one directory, a step of the
+single-directory machine (with foreign events) or no change at all -/
+theorem sim (c : Cfg) (n : Nat) (s s' : MSt) (st : MStep) (h : mstep c n s st = some s') (d : Nat) (hd : d < n) :
+    proj c d s' = proj c d s ∨ ∃ st', step c (proj c d s) st' = some (proj c d s') := by
+  cases st with
+  | fs d' o =>
+    simp only [mstep] at h
+    split at h
+    · by_cases hdd : d = d'
+      · subst hdd; exact Or.inr ⟨_, sim_fs_same c s s' d o h⟩
+      · rcases sim_fs_other c s s' d d' o h hdd with h1 | ⟨p, h1⟩
+        · exact Or.inl h1
+        · exact Or.inr ⟨_, h1⟩
+    · cases h
+  | watcherTake => exact Or.inr ⟨_, sim_take c n s s' h d hd⟩
+  | scan => exact Or.inr ⟨_, sim_scan c n s s' h d⟩
+  | query => exact Or.inr (sim_query c n s s' h d hd)
+
+theorem minv_step (n : Nat) (s s' : MSt) (st : MStep) (h : mstep repaired n s st = some s') (d : Nat) (hd : d < n)
+    (hi : inv repaired (proj repaired d s) = true) : inv repaired (proj repaired d s') = true := by
+  rcases sim repaired n s s' st h d hd with h1 | ⟨st', h1⟩
+  · rw [h1]; exact hi
+  · exact inv_step _ _ st' hi h1
+
+theorem minv_run (n : Nat) (s : MSt) (l : List MStep) (d : Nat) (hd : d < n)
+    (hi : inv repaired (proj repaired d s) = true) : inv repaired (proj repaired d (mrun repaired n s l)) = true := by
+  induction l generalizing s with
+  | nil => exact hi
+  | cons st rest ih =>
+    simp only [mrun, List.foldl_cons]
+    cases hs : mstep repaired n s st with
+    | none => exact ih s hi
+    | some s' => exact ih s' (minv_step n s s' st hs d hd hi)
+
+theorem minv_init (exists_ : Nat → Bool) (d : Nat) : inv repaired (proj repaired d (minit exists_)) = true := by
+  have : proj repaired d (minit exists_) = init (exists_ d) := by simp [proj, minit, init]
+  rw [this]; exact inv_init _
+
+/-- **C11 for any number of directories**: `n` configured directories, each missing or present at
+the start, any finite history of file-system operations on any of them interleaved in any way with
+the watcher's event handling, its scans and queries; once the shared queue is drained and no scan is
+pending, the next query leaves no directory stale: it answers what a cache freshly built from the
+final content of all directories answers. -/
+theorem C11_converges_multi (n : Nat) (exists0 : Nat → Bool) (schedule : List MStep) (d : Nat) (hd : d < n) :
+    let s := mrun repaired n (minit exists0) schedule
+    s.queue = [] → s.pend = false → ((mqueryNow repaired n s).dir d).stale = false := by
+  intro s hq hp
+  have hinv := minv_run n (minit exists0) schedule d hd (minv_init exists0 d)
+  -- the query, and the scan if one is due
+  unfold mqueryNow
+  have hquery : mstep repaired n s .query = some { s with dir := (updateAll repaired n s.dir).1, pend := (updateAll repaired n s.dir).2 } := by
+    simp [mstep, hp]
+  rw [hquery]
+  simp only [Option.getD_some]
+  cases hdue : (updateAll repaired n s.dir).2
+  · -- no directory asks for a refresh: this one is not stale by the invariant
+    have hscan : mstep repaired n { dir := (updateAll repaired n s.dir).1, pend := false, queue := s.queue } .scan = none := by
+      simp [mstep]
+    rw [hscan]
+    simp only [Option.getD_none]
+    have hdd : (dupdate repaired (s.dir d)).2 = false := by
+      cases hx : (dupdate repaired (s.dir d)).2
+      · rfl
+      · have := due_of_mem repaired n s.dir d hd hx; rw [hdue] at this; cases this
+    have hinv' : inv repaired (proj repaired d s) = true := hinv
+    have hqq : (proj repaired d s).queue = [] := by simp [proj, hq]
+    have hpp : (proj repaired d s).pend = false := hp
+    have hstale : ((updateAll repaired n s.dir).1 d).stale = (s.dir d).stale := by
+      simp only [updateAll, hd, if_true, dupdate]
+      split
+      · rfl
+      · split <;> rfl
+    rw [hstale]
+    revert hinv' hdd
+    simp only [inv, hasPass, rmdirs, dupdate, proj, repaired, hq, hp, List.map_nil]
+    generalize s.dir d = x
+    obtain ⟨de, kw, tr, se, stl⟩ := x
+    cases de <;> cases kw <;> cases tr <;> cases se <;> cases stl <;> simp
+  · simp [mstep]
+
+end Cdi.WatchMulti
